@@ -117,7 +117,6 @@ func (r *Run) Violate(clause, sig, format string, a ...interface{}) {
 	if len(d) > 4000 {
 		d = d[:4000] + "…"
 	}
-	r.Ev("oracle", "violation", "%s: %s", clause, d)
 	r.mu.Lock()
 	for _, v := range r.violations {
 		if v.Clause == clause && v.Signature == sig {
@@ -125,6 +124,9 @@ func (r *Run) Violate(clause, sig, format string, a ...interface{}) {
 			return
 		}
 	}
+	r.mu.Unlock()
+	r.Ev("oracle", "violation", "%s: %s", clause, d)
+	r.mu.Lock()
 	if len(r.violations) < 50 {
 		r.violations = append(r.violations, Violation{Clause: clause, Detail: d, Signature: sig})
 	}
